@@ -139,3 +139,54 @@ def run(ctx, prog, res, thorough=False):
             ("%d " % year[1]) if year else "", MN[s - 1], MN[e - 1], *date, *h, *nc)
     r8.check(bad is None, {"month_pairs": 144, "year_forms": 2, "filter_evaluations": n_f, "hint_evaluations": n_h, "window": [y0, y1]}, "C02.R8:month-arm", msg or "", lib.where_of(hint))
     r8.floor(1)
+
+
+YR = "opening_hours_syntax::rules::day::YearRange"
+
+
+def run_years(ctx, prog, res, thorough=False):
+    r9 = res.rule("C02.R9", "year ranges (`2020-2030`, `2020-2030/3`, `2030-2020`): the hint of YearRange never promises a longer constant stretch than its filter gives; both functions (and the closures they call) are extracted per path from MIR and evaluated on a small scope - start and end years in 2000..=2008 in both orders, steps 1, 2, 3, 5, 7, 9 and 65000, query days at the start, middle and end of every year 1998..=2012 (the functions only subtract, compare and take remainders of years, so the scope exercises every case of the hint; it is not the whole domain)")
+    filt = prog.impl_method_one("DateFilter", "filter", self_adt=YR)
+    hint = prog.impl_method_one("DateFilter", "next_change_hint", self_adt=YR)
+    ev = peval.Evaluator(prog, externs=EXTERNS, consts={"DATE_END": peval.DATE_END, "DATE_START": peval.DATE_START})
+    years = [2000, 2001, 2003, 2004, 2008] if not thorough else list(range(2000, 2009))
+    steps = [1, 2, 3, 5, 65000] if not thorough else [1, 2, 3, 4, 5, 7, 9, 65000]
+    y0, y1 = 1996, 2030
+    n_f = n_h = 0
+    bad = None
+    cases = set()
+    try:
+        for s in years:
+            for e in years:
+                for k in steps:
+                    sel = {"range": ("range", s, e), "step": k}
+                    table = {}
+                    for y in range(y0, y1 + 1):
+                        a = bool(ev.run(filt, [sel, (y, 1, 1), None]))
+                        b = bool(ev.run(filt, [sel, (y, 12, 31), None]))
+                        n_f += 2
+                        if a != b:
+                            raise peval.Unmodelled("the filter of a year range changes inside %d" % y)
+                        table[y] = a
+                    for y in range(1998, 2013):
+                        for md in ((1, 1), (6, 15), (12, 31)):
+                            date = (y,) + md
+                            h = ev.run(hint, [sel, date, None])
+                            n_h += 1
+                            if h is None:
+                                cases.add("unknown")
+                                continue
+                            h = h[1]
+                            cases.add("end" if h >= peval.DATE_END else "year")
+                            nc = next((yy for yy in range(y + 1, y1 + 1) if table[yy] != table[y]), None)
+                            if nc is not None and h > (nc, 1, 1) and bad is None:
+                                bad = (s, e, k, date, h, nc)
+    except peval.Unmodelled as ex:
+        r9.fail("C02.R9:unmodelled", "filter / hint of YearRange cannot be evaluated from their MIR any more (%s): not decided, failing closed" % ex, lib.where_of(hint))
+        return
+    msg = ""
+    if bad:
+        s, e, k, date, h, nc = bad
+        msg = "`%d-%d%s`: asked on %04d-%02d-%02d the hint promises no change before %04d-%02d-%02d, but the filter changes on %d-01-01: the days in between are skipped" % (s, e, "/%d" % k if k != 1 else "", *date, *h, nc)
+    r9.check(bad is None, {"ranges": len(years) ** 2, "steps": steps, "filter_evaluations": n_f, "hint_evaluations": n_h, "hint_answers_seen": sorted(cases)}, "C02.R9:year-range", msg, lib.where_of(hint))
+    r9.check({"year", "end"} <= cases, {"hint_cases_exercised": sorted(cases)}, "C02.R9:FLOOR", "FLOOR: the scope no longer exercises both a dated hint and the `never again` answer (%s)" % sorted(cases), lib.where_of(hint))
